@@ -118,6 +118,8 @@ def gen_cases(ctx):
             c["via"] = rng.choice(["kwargs", "pset", "solve-args"])
         if c["loop"] == "flowpath":
             c["via"] = rng.choice(["kwargs", "pset"])
+        if c["loop"] == "spring":
+            c["via"] = rng.choice(["direct", "reduced"])
     # Picard
     for _ in range(ctx.budget(150, 800)):
         n = 12
